@@ -11,7 +11,8 @@ EXPLANATION = (
     "routed to the owner of the destination; (R05.3) the voters cannot see arrival order: a collecting barrier "
     "separates writer and reader of the running maximum distance and the best-fit claim loop is dominated by a sort "
     "on decreasing weight. R05.4 (inventory of HashMap iterations) is informational only."
-    ' R05.3 also requires that the Hungarian stage finds the row of a query and the column of a track by id in the id -> index map (never by adjacency in the stream); (R05.6) the idle listings pass every unexpired lookup result on - no dropping / short-circuiting adaptor besides the expiry filter; R05.1 also requires that a distance response reads from channels created by its own query.')
+    ' R05.3 also requires that the Hungarian stage finds the row of a query and the column of a track by id in the id -> index map (never by adjacency in the stream); (R05.6) the idle listings pass every unexpired lookup result on - no dropping / short-circuiting adaptor besides the expiry filter; R05.1 also requires that a distance response reads from channels created by its own query.'
+    ' (R05.7) a (candidate, track) pair is judged on its own whatever shares its shard (postprocess_distances per pair) and the simple tracker reads its records after the store updates of the call (sibling steps of the batch tracker).')
 NOT_DECIDED = ["equality of tracker outputs across shard counts as an input-output statement (needs execution)",
                "tie-breaking for exactly equal weights (excluded by the property)"]
 ASSUMPTIONS = ["crossbeam channels lossless FIFO", "HashMap iteration order is arbitrary but complete",
